@@ -81,6 +81,7 @@ class Env:
 class Gen:
     def __init__(self, seed, cyc=0):
         self.r = random.Random(seed)
+        self.x = random.Random("x/%r" % (seed,))   # second stream: later extensions draw here, the first stream stays put
         self.used = set()
         self.feats = set()
         self.cyc = cyc            # offset into the cycling coverage lists
@@ -110,6 +111,14 @@ class Gen:
             self.used.add(s)
             return s
         raise RuntimeError("no identifier")
+
+    def xdo(self, f, *a, **kw):
+        """call a generator method with the second stream in place of the first"""
+        keep, self.r = self.r, self.x
+        try:
+            return f(*a, **kw)
+        finally:
+            self.r = keep
 
     def macro(self):
         r = self.r
@@ -817,6 +826,14 @@ class Gen:
         else:
             want = min(budget, r.randint(1, 22))
         body = self.block(env, 1, want, False, 3, idx)
+        if "empty_body" not in self.avoid and self.x.random() < 0.15:
+            # a loop whose body is the empty statement
+            c = [i for i in range(len(body) - 1) if body[i].kind == "ctrl" and body[i].meta.get("kw") == "while"
+                 and body[i + 1].kind == "stmt" and body[i + 1].depth == body[i].depth + 1 and not body[i + 1].meta.get("split")]
+            if c:
+                i = self.x.choice(c)
+                body[i + 1] = Line("stmt_empty", [IND(body[i].depth + 1), (";", "punct")], body[i].depth + 1, idx)
+                self.feats.add("empty_body")
         lines += body
         lines.append(Line("fclose", [("}", "punct")], 0, idx))
         return lines, head, env
@@ -993,8 +1010,15 @@ class Gen:
                               SP, ("&&", "op:bin"), SP, ("!", "op:un"), ("defined", "pp"), ("(", "punct"), (self.macro(), "id:macro"),
                               (")", "punct")]])
             L += [Line("pp_ifdef", cond, 1),
-                  Line("pp_define", [("#", "pp"), ("  ", "ws:ppindent"), ("define", "pp"), SP, (m, "id:macro"), SP, self.int_const()], 2),
-                  Line("pp_else", [("#", "pp"), SP, ("else", "pp")], 1),
+                  Line("pp_define", [("#", "pp"), ("  ", "ws:ppindent"), ("define", "pp"), SP, (m, "id:macro"), SP, self.int_const()], 2)]
+            if self.x.random() < 0.35:
+                self.feats.add("h_elif")
+                ec = [("#", "pp"), SP, ("elif", "pp"), SP, (self.xdo(self.macro), "id:macro"), SP,
+                      (self.x.choice([">", "<", "==", ">="]), "op:bin"), SP, (self.x.choice(["2", "0", "42"]), "const:int")]
+                L += [Line("pp_elif", ec, 1),
+                      Line("pp_define", [("#", "pp"), ("  ", "ws:ppindent"), ("define", "pp"), SP, (m, "id:macro"), SP,
+                                         (self.x.choice(["3", "0x10", "7"]), "const:int")], 2)]
+            L += [Line("pp_else", [("#", "pp"), SP, ("else", "pp")], 1),
                   Line("pp_define", [("#", "pp"), ("  ", "ws:ppindent"), ("define", "pp"), SP, (m, "id:macro"), SP, self.int_const()], 2),
                   Line("pp_endif", [("#", "pp"), SP, ("endif", "pp")], 1)]
             if r.random() < 0.4:
@@ -1029,6 +1053,41 @@ class Gen:
                         members.append((r.choice(["void", "int"]), "(*", nm, [(")", "punct"), ("(", "punct"), (r.choice(["int", "void *", "char *"]), "type"),
                                                                               (")", "punct")]))
                         self.feats.add("h_fptr_member")
+            x = self.x
+            if kind == "enum":
+                if x.random() < 0.35:
+                    # explicit values: constants, shifts of the previous enumerator, parenthesised expressions
+                    self.feats.add("h_enum_values")
+                    vals = []
+                    for i, m in enumerate(members):
+                        y = x.random()
+                        if i and y < 0.3:
+                            v = [(members[i - 1], "id:enumconst"), SP, ("<<", "op:bin"), SP, ("1", "const:int")]
+                        elif i and y < 0.45:
+                            v = [("(", "punct"), (members[i - 1], "id:enumconst"), SP, ("|", "op:bin"), SP,
+                                 (x.choice(["4", "0x10", "8"]), "const:int"), (")", "punct")]
+                        elif y < 0.85:
+                            v = [(x.choice(["0", "1", "42", "0x7f", "'a'", "-1"]), "const:int")]
+                            if v[0][0] == "-1":
+                                v = [("-", "op:un"), ("1", "const:int")]
+                        else:
+                            v = None
+                        vals.append(v)
+                    members = list(zip(members, vals))
+            else:
+                for i, mb in enumerate(members):
+                    t, st, nm, tail = mb
+                    if not st and not tail and t in ("int", "unsigned int", "unsigned char", "unsigned short") and x.random() < 0.2:
+                        self.feats.add("h_bitfield")
+                        members[i] = (t, st, nm, [SP, (":", "punct:bitfield"), SP, (x.choice(["1", "3", "8"]), "const:int")])
+                if x.random() < 0.15:
+                    # a named struct / union defined inside the type, its members on the same column
+                    self.feats.add("h_nested")
+                    k2 = x.choice(["struct", "union"])
+                    tag2 = self.xdo(self.ident, {"struct": "s_", "union": "u_"}[k2], 2, 5)
+                    inner = [(x.choice(["int", "char", "long", "unsigned int"]), "*" * x.choice([0, 0, 1]),
+                              self.xdo(self.ident, hostile=0.1), []) for _ in range(x.randint(1, 3))]
+                    members.insert(x.randint(0, len(members)), ("@" + k2 + " " + tag2, "", self.xdo(self.ident, hostile=0.1), inner))
             items.append((kind, tag, tname, members))
             if tname:
                 self.types.append(tname)
@@ -1049,8 +1108,18 @@ class Gen:
                 t = r.choice(INT_TYPES + self.types[:2])
                 params.append(self.param_segs(t, "*" * r.choice([0, 0, 1]), self.ident(hostile=0.2)))
             protos.append((rtype, ptr, self.ident("ft_", 2, 8), params))
+        simple = []
+        x = self.x
+        if x.random() < 0.3:
+            # plain typedefs: an alias, a function-pointer type, an array type
+            for _ in range(x.randint(1, 2)):
+                form = x.choice(["alias", "fptr", "array"])
+                self.feats.add("h_typedef_" + form)
+                bt = x.choice(["int", "char", "unsigned int", "long", "void"] if form == "fptr" else
+                              ["int", "char", "unsigned int", "long", "unsigned long long"])
+                simple.append((form, bt, self.xdo(self.ident, "t_", 2, 6)))
         heads = ["typedef %s %s" % (k, tag) for (k, tag, tn, _) in items if tn] + [p[0] for p in protos] + \
-                ["extern " + t for t, _ in externs]
+                ["extern " + t for t, _ in externs] + ["typedef " + bt for _, bt, _ in simple]
         col = (max(len(h) for h in heads) // 4 + 1) * 4 if heads else 4
         fidx = 0
         for t, n in externs:
@@ -1058,6 +1127,28 @@ class Gen:
                                      (";", "punct")]))
         if externs:
             L.append(Line("blank", []))
+        for form, bt, tn in simple:
+            segs = [("typedef", "kw"), SP, (bt, "type"), TAB(pad_tabs(len("typedef " + bt), col))]
+            if form == "alias":
+                segs += [(tn, "id:type")]
+            elif form == "array":
+                segs += [(tn, "id:type"), ("[", "punct"), (x.choice(["2", "4", "16"]), "const:int"), ("]", "punct")]
+            else:
+                segs += [("(", "punct"), ("*", "op:ptr"), (tn, "id:type"), (")", "punct"), ("(", "punct")]
+                n = x.randint(0, 2)
+                if n == 0:
+                    segs.append(("void", "type"))
+                for k in range(n):
+                    if k:
+                        segs += [(",", "op:comma"), SP]
+                    pt = x.choice(["int", "char", "void", "long"])
+                    segs += self.param_segs(pt, "*" * (1 if pt == "void" else x.choice([0, 1])), self.xdo(self.ident, hostile=0.1))
+                segs.append((")", "punct"))
+            segs.append((";", "punct"))
+            L.append(Line("td_simple", segs, 0, -1))
+        if simple:
+            L.append(Line("blank", []))
+            self.types += [tn for form, _, tn in simple if form == "alias"]
         for (kind, tag, tname, members) in items:
             if tname:
                 L.append(Line("td_head", [("typedef", "kw"), SP, (kind, "kw"), SP, (tag, "id:tag")], 0, -1, utype=kind))
@@ -1066,14 +1157,35 @@ class Gen:
             L.append(Line("td_open", [("{", "punct")]))
             if kind == "enum":
                 for i, m in enumerate(members):
+                    val = None
+                    if isinstance(m, tuple):
+                        m, val = m
                     segs = [IND(1), (m, "id:enumconst")]
+                    if val:
+                        segs += [SP, ("=", "op:assign"), SP] + val
                     if i < len(members) - 1:
                         segs.append((",", "op:comma"))
                     L.append(Line("td_enum_member", segs, 1))
             else:
-                mcol = (max(vis_width("\t" + t) for t, _, _, _ in members) // 4 + 1) * 4
+                def mwidth(t, tail):
+                    if t.startswith("@"):
+                        return max([vis_width("\t\t" + t2) for t2, _, _, _ in tail] + [vis_width("\t}")])
+                    return vis_width("\t" + t)
+                mcol = (max(mwidth(t, tail) for t, _, _, tail in members) // 4 + 1) * 4
                 mcol = max(mcol, col)
                 for t, st, n, tail in members:
+                    if t.startswith("@"):
+                        k2, tag2 = t[1:].split(" ")
+                        L.append(Line("td_nested_head", [IND(1), (k2, "kw"), SP, (tag2, "id:tag")], 1))
+                        L.append(Line("td_nested_open", [IND(1), ("{", "punct")], 1))
+                        for t2, st2, n2, _ in tail:
+                            segs = [IND(2)] + type_segs(t2) + [TAB(pad_tabs(vis_width("\t\t" + t2), mcol))]
+                            if st2:
+                                segs.append((st2, "op:ptr"))
+                            L.append(Line("td_nested_member", segs + [(n2, "id:member"), (";", "punct")], 2))
+                        L.append(Line("td_nested_close", [IND(1), ("}", "punct"), TAB(pad_tabs(vis_width("\t}"), mcol)), (n, "id:member"),
+                                                          (";", "punct")], 1))
+                        continue
                     segs = [IND(1)] + type_segs(t) + [TAB(pad_tabs(vis_width("\t" + t), mcol))]
                     if st == "(*":
                         segs += [("(", "punct"), ("*", "op:ptr")]
